@@ -62,4 +62,23 @@ theorem wcNbar_ge (ns : List ℕ) (hr : ns ≠ []) (h2 : ∀ n ∈ ns, 2 ≤ n) 
   rw [le_div_iff₀ hlen]
   exact hsum ns h2
 
+/-- the h̄ that random mating (b = 0, eq. 3) determines -/
+def wcHbar (ns idx : List ℕ) : ℚ := 4 * wcNbar ns / (2 * wcNbar ns - 1) * wcH ns idx
+
+theorem wcB_wcHbar (ns idx : List ℕ) (hr : ns ≠ []) (h2 : ∀ n ∈ ns, 2 ≤ n) : wcB ns idx (wcHbar ns idx) = 0 := by
+  have hnb2 := wcNbar_ge ns hr h2
+  have hnb0 : wcNbar ns ≠ 0 := by linarith
+  have hnb21 : 2 * wcNbar ns - 1 ≠ 0 := by linarith
+  have hnb21' : wcNbar ns * 2 - 1 ≠ 0 := by linarith
+  unfold wcB wcHbar
+  have : wcH ns idx - (2 * wcNbar ns - 1) / (4 * wcNbar ns) * (4 * wcNbar ns / (2 * wcNbar ns - 1) * wcH ns idx) = 0 := by
+    field_simp
+    ring
+  rw [this, mul_zero]
+
+/-- θ̂ of eq. 10 over the SNPs given by their derived-count vectors, each with the h̄ random mating determines -/
+def wcTheta (ns : List ℕ) (counts : List (List ℕ)) : ℚ :=
+  sumMap counts (fun c => wcA ns c (wcHbar ns c)) /
+    sumMap counts (fun c => wcA ns c (wcHbar ns c) + wcB ns c (wcHbar ns c) + wcC (wcHbar ns c))
+
 end DadiVerif.DataDict
